@@ -42,6 +42,9 @@ TIE = ("S: real infinite_watch vs the Lean world machine, act by act, on seeded 
        "inside `async with insights.revised` (re-proved equal to the model's locked variant) and that the operator's pause toggles are "
        "handed over orchestrator → Ensemble → queueing.watcher → infinite_watch (Tie.pause_wired), and that revise_resources builds "
        "patched_selectors from the spawning and changing registries and hands it to _disable_unsuitable_resources (Tie.patch_kinds_eq); "
+       "D-crd: every item handed to the real CRD observer's processor in the operator runs (type, name, generation, group) with the real "
+       "scanning.scan_resources result made for it, and insights.watched_resources after it, vs the Lean fold `Disc.step` (runs whose handlers "
+       "select by (group, version, plural) with full verbs; an event for which the processor made no scan has no counterpart: mismatch); "
        "D': every item fed to the real revise_namespaces path in the operator runs (with its Terminating reading and an independent "
        "matcher's verdict on the name) vs the Lean `reviseNs`; D'': the real revise_namespaces called directly on generated listings and "
        "event sequences (all body shapes, DELETED events with conditions, pre-filled insights) vs `reviseAll`, and the real "
@@ -86,7 +89,15 @@ LEVEL_TEXT = (
     "since the last pass, EVERY revision of the insights — in particular one that leaves them as they were — is followed by a pass "
     "after which every served pair has a running watcher: the bound of C19-F6, 'until the next revision'), skip_noop_revisions_witness "
     "(the variant Model/C19_OrchSkip, an orchestrator that skips the revisions which do not change its snapshot of the insights, "
-    "never heals, for any number of such revisions: the unconditional pass is load-bearing; seeded change C19f). The models are hand-written and tied to the code by correspondence runs; the pass-under-lock "
+    "never heals, for any number of such revisions: the unconditional pass is load-bearing; seeded change C19f). Cluster→insights for "
+    "resource kinds (observation.process_discovered_resource_event, Model/C19_Discovery: every event of a CRD, whatever its type, "
+    "generation, spec or status, re-scans the API group of that CRD), for ALL item histories from ANY earlier insights: "
+    "rescan_follows_discovery (FULL: the served resources of a group are what the discovery showed at the last event of a CRD of that "
+    "group), appeared_kind_served, vanished_kind_unserved, other_groups_untouched; skip_known_generation_witness (the variant that drops "
+    "MODIFIED events of a known generation never serves a kind that becomes discoverable when its CRD is established by a status-only "
+    "update — stored at runtime or before the start —, for any number of further status-only updates; seeded change C19h); which "
+    "resources the selectors pick of a scan, and that the discovery changes only together with a CRD event (the API server's contract), "
+    "are inputs of this model. The models are hand-written and tied to the code by correspondence runs; the pass-under-lock "
     "shape of orchestrator() is re-extracted from the AST on every run.")
 THEOREMS = [("Kopf.Props.C19", "Kopf.C19." + n) for n in [
     # one watch-stream, all adversary scripts
@@ -111,7 +122,10 @@ THEOREMS = [("Kopf.Props.C19", "Kopf.C19." + n) for n in [
     "pass_progress", "no_lost_wakeup", "exactly_one_watch_async_partial", "served_pairs_live_async_partial",
     "death_while_idle_witness", "unlocked_pass_loses_wakeup_witness",
     # after a watcher has exited on its own: every revision — also one that changes nothing — sets off a pass that replaces it
-    "any_revision_heals", "skip_noop_revisions_witness"]]
+    "any_revision_heals", "skip_noop_revisions_witness",
+    # cluster → insights (resource kinds): every event of a CRD re-scans its API group
+    "rescan_follows_discovery", "appeared_kind_served", "vanished_kind_unserved", "other_groups_untouched",
+    "skip_known_generation_witness"]]
 TIE_THEOREMS = [("Kopf.Tie.C19", "Kopf.C19.Tie.pass_under_lock"), ("Kopf.Tie.C19", "Kopf.C19.Tie.pause_wired"),
                 ("Kopf.Tie.C19", "Kopf.C19.Tie.patch_kinds_eq")]
 RULE = ("stream scripts: first resourceVersion just below 10/100/1000 in 35 % of the scripts (the versions change their digit count "
@@ -124,7 +138,12 @@ RULE = ("stream scripts: first resourceVersion just below 10/100/1000 in 35 % of
         "breaks, and 'meta' runs that break/compact/410 the observers' own namespaces/CRD watch-streams with namespaces/CRDs created or "
         "deleted inside the re-list gap and between the two start-up listings, and 'crdedit' runs that modify a CRD in place (version "
         "added/removed, preferred version flipped, categories/short names changed) under handlers selecting by bare name, category and "
-        "short name; 'heal' runs (a watcher exits on HTTP 404 — a one-off 404 on its reconnect, or its CRD deleted and re-created within the lag "
+        "short name; 'establish' runs (kinds appear in the stages of a real API server: CRD stored = ADDED, not served, not discoverable → names "
+        "accepted = status-only MODIFIED → established = status-only MODIFIED with the generation unchanged, from which instant the kind is "
+        "served and discoverable; stages 0 … 2.5 s apart, also between the round-trips of the re-scan set off by ADDED, also behind lagging "
+        "CRD events; CRDs stored but not established when the operator starts; kinds that go and come back in stages; CRDs touched afterwards "
+        "in status / metadata / spec; handlers registered before the kinds exist); 'heal' runs (the CRD touches there are in the spec, the "
+        "status or the metadata; a watcher exits on HTTP 404 — a one-off 404 on its reconnect, or its CRD deleted and re-created within the lag "
         "of the CRD events (meta_lag 0.5-1 s) / two round-trips later without any lag / slower than the lag / behind a busy orchestrator — and "
         "then 0-3 namespace/CRD events follow, most of which revise the insights WITHOUT changing them: the victim's CRD or a neighbour's "
         "touched in place, a CRD nobody serves added/removed, a label on a namespace, a namespace outside the patterns; then the victim's "
@@ -154,6 +173,9 @@ ASSUMPTIONS = ["resource versions are modelled as naturals (Kubernetes: opaque s
                "operator_paused ToggleSet (captured at orchestrator(); the documented 'pause button'), not through peering (C13's subject); the pause of one "
                "stream at every position is exercised on infinite_watch directly (tie S); the meta-watchers (namespaces/CRDs) run with operator_paused=None "
                "and do list and watch while paused, by design",
+               "the API server serves and shows a kind in its discovery documents from the instant its CRD's Established condition is stored "
+               "(one status-only MODIFIED event, generation unchanged) until the CRD object is removed: what a group serves changes only "
+               "together with an event of one of its CRDs; a discovery that lags behind the CRD's own events is not generated",
                "the cluster→insights map is modelled for namespaces (Model/C19_Insights: listed items ignored, events applied; reviseNs: the "
                "Terminating reading of a body, the patterns' verdict as an input) and tied by the observer-feed comparisons and the direct calls; of the "
                "CRD/resource half only the last step is modelled (Model/C19_Resources: _disable_unsuitable_resources over Selector.select, verbs per "
@@ -1062,12 +1084,14 @@ def gen_heal(rng: random.Random, seed: int) -> dict:
         q = rng.random()
         same_group = [p for p in pool if p != victim and GVP[p][0] == GVP[victim][0]]
         other_group = [p for p in pool if GVP[p][0] != GVP[victim][0]]
+        # a CRD touched in place: in its spec (the generation goes up), in its status or in its metadata only (it does not)
+        mode = rng.choice(["spec", "status", "status", "meta"])
         if q < 0.2:
-            after.append(["touch_crd", victim])
+            after.append(["touch_crd", victim, mode])
         elif q < 0.35 and same_group:
-            after.append(["touch_crd", rng.choice(same_group)])
+            after.append(["touch_crd", rng.choice(same_group), mode])
         elif q < 0.45 and other_group:
-            after.append(["touch_crd", rng.choice(other_group)])
+            after.append(["touch_crd", rng.choice(other_group), mode])
         elif q < 0.6:
             after.append([rng.choice(["add_res", "del_res"]), rng.choice([p for p in pool if p != victim])])
         elif q < 0.75:
@@ -1085,6 +1109,73 @@ def gen_heal(rng: random.Random, seed: int) -> dict:
     t += 6.0
     tl.append([t, "check"])
     sc.update({"how": how, "timeline": tl, "end": t + 2.0})
+    return sc
+
+
+def gen_establish(rng: random.Random, seed: int) -> dict:
+    """Kinds that APPEAR the way they do on a real API server — in stages, each an event on the CRD stream:
+    the CRD object is stored (ADDED, generation 1, not served, not in the discovery), the names are accepted (a STATUS-ONLY
+    update, same generation), the CRD is established (a STATUS-ONLY update, same generation: from that instant the kind is
+    served and discoverable). The stages are 0 (same instant) … 2.5 s apart, also inside the observer's re-scan that the
+    ADDED event sets off (three round-trips of 1/64 s), also behind lagging CRD events; some CRDs are stored but not yet
+    established when the operator starts (it sees them in its initial listing only); some kinds go away and come back the
+    same way; CRDs are touched afterwards in their status / metadata / spec. The operator has handlers for the kinds
+    before they exist. Then their objects change; checkpoints well after every stage."""
+    clusterwide = rng.random() < 0.5
+    pool = ["kopfexamples", "widgets", "clusterthings"]
+    late = sorted(rng.sample(pool, rng.choice([1, 1, 2, 3])))
+    handlers = sorted(set(late) | {p for p in pool if rng.random() < 0.3})
+    init_res = sorted(p for p in pool if p not in late and rng.random() < 0.6)
+    pending = sorted(p for p in late if rng.random() < 0.25)
+    init_ns = ["team-a"] + [n for n in ["team-b", "other"] if rng.random() < 0.5]
+    sc: dict = {"seed": seed, "establish": True, "clusterwide": clusterwide, "patterns": ["team-*"], "handlers": handlers,
+                "initial_resources": init_res, "initial_crds": pending, "initial_namespaces": init_ns}
+    if rng.random() < 0.25:
+        sc["meta_lag"] = {"customresourcedefinitions": rng.choice([0.25, 0.5, 1.0])}
+    lag = float((sc.get("meta_lag") or {}).get("customresourcedefinitions", 0.0))
+    gaps = [0.0, 1 / 64, 1 / 32, 3 / 64, 1 / 16, 0.125, 0.25, 0.5, 1.0, 2.5]
+    tl: list[list] = [[2.0, "check"]]
+    t = 3.0
+
+    def appear(p: str, t0: float, stored: bool) -> float:
+        """the stages of `p` from t0 on; returns the time at which it is established"""
+        te = t0
+        if not stored:
+            tl.append([t0, "add_crd", p])
+            te = t0 + rng.choice(gaps)
+        if rng.random() < 0.5:
+            tl.append([t0 + (te - t0) * rng.choice([0.0, 0.5, 1.0]), "accept_crd", p])
+        tl.append([te, "establish", p])
+        return te
+
+    for p in late:
+        te = appear(p, t, p in pending)
+        t = te + 0.5
+        tl.append([te + rng.choice([1 / 64, 0.25, 0.5]) + lag, "create", p, "team-a", "x"])
+        if rng.random() < 0.5:
+            tl.append([t, "touch_crd", rng.choice(late), rng.choice(["status", "status", "meta", "spec"])])
+        if rng.random() < 0.6:
+            t += 3.0 + lag
+            tl.append([t, "check"])
+            t += 1.0
+    if rng.random() < 0.4:      # one of them goes away and comes back, in stages again (a new object: generation 1 again)
+        p = rng.choice(late)
+        tl.append([t, "del_res", p])
+        t += rng.choice([1 / 32, 0.125, 0.5, 1.5]) if lag == 0 else lag + rng.choice([0.5, 1.0])
+        if rng.random() < 0.3:
+            t += 3.0
+            tl.append([t, "check"])
+            t += 1.0
+        te = appear(p, t, False)
+        t = te + 0.5 + lag
+        tl.append([t, "create", p, "team-a", "x"])
+    t += 1.0
+    for p in late:
+        tl.append([t, "create", p, "team-a", "y"])
+        tl.append([t + 0.5, "edit", p, "team-a", "y"])
+    t += 5.0 + lag
+    tl.append([t, "check"])
+    sc.update({"timeline": tl, "end": t + 2.0})
     return sc
 
 
@@ -1445,6 +1536,16 @@ def _died_unnoticed(sc: dict, r: dict, pair: tuple, t: float) -> bool:
     return _exited_on_404(r, pair, t) is not None and _healing_due(sc, r, pair, t) is None
 
 
+def _never_listed_since_appeared(r: dict, pair: tuple, t: float) -> float | None:
+    """The last time up to t at which the API server began to serve the kind of `pair`, if no list request for the pair has
+    been sent to it since; None when the kind did not appear at runtime or was listed afterwards."""
+    apps = [a[0] for a in r.get("appearances", []) if a[1] == pair[0] and a[0] <= t]
+    if not apps:
+        return None
+    listed = any(q["kind"] == "list" and (q["plural"], q["ns"]) == tuple(pair) and apps[-1] <= q["t"] <= t for q in r.get("obj_requests", []))
+    return None if listed else apps[-1]
+
+
 def _recreated(sc: dict, name: str) -> bool:
     ops = sorted((o for o in sc["timeline"] if o[1] in ("add_ns", "del_ns") and o[2] == name), key=lambda x: x[0])
     seen_del = False
@@ -1525,6 +1626,13 @@ def oracle_operator(sc: dict, r: dict) -> list[tuple[str, dict]]:
                               "its key stayed in the ensemble, and it is never started again", F4_SIG))
             elif not extra and not dup and missing and all(m[0] in gone410 for m in missing):
                 fails.append((f"t={c['t']}: served pair(s) {missing} have no watch: the watcher died on HTTP 410 and is never restarted", F1_SIG))
+            elif not extra and not dup and missing and all(_never_listed_since_appeared(r, m, c["t"]) is not None for m in missing):
+                # 'resource kinds appearing': read off the API server alone — when it began to serve the kind, and that no
+                # list request for the pair has reached it since
+                ev = [f"{m}: served by the API server since t={_never_listed_since_appeared(r, m, c['t'])}" for m in missing]
+                fails.append((f"t={c['t']}: served pair(s) {missing} have no watch: the kind appeared in the cluster at runtime (its CRD "
+                              f"became established), the handlers select it, and its objects were never listed since: {ev}",
+                              {"site": "observation.resource_observer", "shape": "a kind that appeared at runtime and is served was never listed"}))
             else:
                 fails.append((f"t={c['t']}: open watches {got} != served pairs {want}",
                               {"site": "orchestration.adjust_tasks", "shape": "active watches != served pairs"}))
@@ -1622,7 +1730,8 @@ def eval_operator(sc: dict) -> dict:
     if "sim_error" in r:
         return {"sc": sc, "sim_error": r["sim_error"]}
     fails = oracle_operator(sc, r)
-    churn = [o[1] for o in sc["timeline"] if o[1] in ("add_ns", "del_ns", "add_res", "del_res", "add_version", "del_version",
+    churn = [o[1] for o in sc["timeline"] if o[1] in ("add_ns", "del_ns", "add_res", "del_res", "add_crd", "accept_crd", "establish",
+                                                       "add_version", "del_version",
                                                        "set_preferred", "set_categories", "set_shortnames",
                                                        "term_ns", "fin_ns", "pause", "resume", "touch_crd", "touch_ns")]
     nsreq = nsimpl = nsimpl2 = None
@@ -1664,6 +1773,30 @@ def eval_operator(sc: dict) -> dict:
         elif got0 != want0:
             fails.append(("the observer's own listing did not put exactly the matching namespaces into the insights",
                           {"site": "observation.namespace_observer", "shape": "insights after the first listing != matching namespaces"}))
+    # the CRD observer's feed vs the Lean fold (Model/C19_Discovery): every item handed to the real processor, with the real
+    # scan made for it; runs whose handlers select by (group, version, plural) with full verbs (what the selectors pick of a
+    # scan is then the handlers' own kinds; the other selectors are Model/C19_Resources' and the oracle's subject)
+    crdreq = crdimpl = None
+    cfeed = r.get("crd_feed") or []
+    if cfeed and cfeed[0]["type"] == "STARTUP" and not (sc.get("selectors") or sc.get("verbs") or sc.get("extra_handlers")):
+        gids: dict = {}
+        rids: dict = {}
+        gid = lambda g: gids.setdefault(g, len(gids))  # noqa: E731
+        rid = lambda v, p: rids.setdefault((v, p), len(rids))  # noqa: E731
+        picked = lambda scan, grp: sorted(rid(v, p) for g, v, p in scan if p in sc["handlers"] and GVP.get(p) == (g, v) and (grp is None or g == grp))  # noqa: E731
+        pairs = lambda ws: sorted([gid(g), rid(v, p)] for g, v, p in ws)  # noqa: E731
+        items, crdimpl = [], []
+        for f in cfeed[1:]:
+            if f["type"] == "STARTUP" or f.get("group") is None or f.get("name") is None:
+                items = None
+                break
+            items.append([f["type"], 0, int(f.get("gen") or 0), gid(f["group"]), picked(f["scan"], f["group"]) if f["scan"] is not None else []])
+            # an event (not an item of a listing) for which the processor made no scan at all has no counterpart in the model
+            crdimpl.append(pairs(f["after"]) if (f["scan"] is not None or f["type"] == "LISTED") else "no re-scan for a CRD event")
+        if items:
+            crdreq = ["C19.crdfold", pairs(cfeed[0]["after"]), items]
+        else:
+            crdimpl = None
     trace = r.get("orch_trace") or []
     # a pass cut off by the end of the run is dropped (the trace must end after a spawnAll, or in wait())
     cut = False
@@ -1694,9 +1827,9 @@ def eval_operator(sc: dict) -> dict:
     orchimpl = [l[1] for l in trace if l[0] == "spawnAll"]
     return {"sc": sc, "fails": fails, "churn": churn, "checkpoints": len(r["checkpoints"]), "nsreq": nsreq, "nsimpl": nsimpl,
             "nsreq2": nsreq2, "nsimpl2": nsimpl2, "pauses": len(r.get("pauses") or []),
-            "orchreq": orchreq, "orchimpl": orchimpl,
+            "orchreq": orchreq, "orchimpl": orchimpl, "crdreq": crdreq, "crdimpl": crdimpl,
             "orchendreq": ["C19.orchEnd", orchreq[1]] if orchreq is not None and at_rest else None,
-            "n404": len(r.get("not_found_log") or []), "noop_revisions": noop_revisions,
+            "n404": len(r.get("not_found_log") or []), "noop_revisions": noop_revisions, "appearances": len(r.get("appearances") or []),
             "watch_requests": len(r["watch_requests"]), "calls": len(r["calls"]),
             "shape": [[c["watches"], c["resources"], c["namespaces"]] for c in r["checkpoints"]],
             "detail": r if fails else None}
@@ -2030,7 +2163,19 @@ def absorb(ctx: Ctx, res: dict, source: str, pending: dict) -> None:
                     ctx.count("heal_runs", "afterwards: " + o[1])
             ctx.count("heal_runs", "HTTP 404 answered to a watcher" if res.get("n404") else "no watcher met a 404")
             ctx.count("heal_runs", "revisions that left the insights as they were", res.get("noop_revisions", 0))
-        ctx.count("operator_runs", "heal" if case.get("heal") else "rapid" if case.get("rapid") else "meta" if case.get("meta") else "crdedit" if case.get("crdedit") else
+        if case.get("establish"):
+            ctx.count("establish_runs", "CRD events lagging" if case.get("meta_lag") else "CRD events prompt")
+            ctx.count("establish_runs", "CRDs stored but not established at start-up", len(case.get("initial_crds") or []))
+            at = {}
+            for o in sorted(case["timeline"], key=lambda x: x[0]):
+                if o[1] == "add_crd":
+                    at[o[2]] = o[0]
+                elif o[1] == "establish" and o[2] in at:
+                    ctx.count("establish_delay_s", str(round(o[0] - at.pop(o[2]), 4)))
+                elif o[1] == "touch_crd":
+                    ctx.count("establish_runs", "afterwards: touch_crd " + (o[3] if len(o) > 3 else "spec"))
+            ctx.count("establish_runs", "kinds that became served at runtime", res.get("appearances", 0))
+        ctx.count("operator_runs", "establish" if case.get("establish") else "heal" if case.get("heal") else "rapid" if case.get("rapid") else "meta" if case.get("meta") else "crdedit" if case.get("crdedit") else
                   "pause" if case.get("pauseop") else "nsterm" if case.get("nsterm") else "restricted:" + str(case["restricted"]) if case.get("restricted") else
                   "kinds" if case.get("kinds") else "churn")
         ctx.count("operator_patterns", json.dumps(case.get("patterns")))
@@ -2052,6 +2197,13 @@ def absorb(ctx: Ctx, res: dict, source: str, pending: dict) -> None:
             pending["impl"].append({"orchestrator_at_rest": "waiting"})
             pending["where"].append({"kind": kind, "case": case})
             ctx.count("orchestrator_tie", "runs compared at rest (no wake-up owed)")
+        if res.get("crdreq") is not None:
+            pending["reqs"].append(res["crdreq"])
+            pending["impl"].append({"after": res["crdimpl"]})
+            pending["where"].append({"kind": kind, "case": case})
+            ctx.count("crd_insights_tie", "fed items", len(res["crdimpl"]))
+            for it in res["crdreq"][2]:
+                ctx.count("crd_insights_items", it[0])
         if res.get("nsreq") is not None:
             pending["reqs"].append(res["nsreq"])
             pending["impl"].append({"after": res["nsimpl"]})
@@ -2089,6 +2241,9 @@ def compare_with_model(ctx: Ctx, pending: dict) -> None:
         elif req[0] == "C19.orchEnd":
             ctx.compare("C19 orchestrator at rest (every revision of the insights was followed by a pass)", impl,
                         {"orchestrator_at_rest": out[1]}, wh)
+        elif req[0] == "C19.crdfold":
+            ctx.compare("C19 resource insights (CRD observer feed → insights.watched_resources)", impl,
+                        {"after": [sorted(row) for row in out[1]]}, wh)
         elif req[0] == "C19.nsfold":
             ctx.compare("C19 namespace insights (observer feed → insights.namespaces)", impl, {"after": out[1]}, wh)
         elif req[0] == "C19.nsrevise":
@@ -2139,7 +2294,7 @@ def run(ctx: Ctx) -> None:
         items.append(("operator", gen_meta(rng, base + i)))
         sources.append("generated")
     ctx.count("cases", "operator-meta", n_meta)
-    for tag, gen, n in (("heal", gen_heal, ctx.budget(90, 1500)),
+    for tag, gen, n in (("heal", gen_heal, ctx.budget(90, 1500)), ("establish", gen_establish, ctx.budget(70, 1500)),
                         ("pause", gen_pauseop, ctx.budget(60, 800)), ("nsterm", gen_nsterm, ctx.budget(60, 800)),
                         ("restricted", gen_restricted, ctx.budget(30, 400)), ("kinds", gen_kinds, ctx.budget(80, 1000))):
         for i in range(n):
@@ -2183,7 +2338,7 @@ def search(ctx: Ctx, broken: list) -> None:
     for i in range(ctx.budget(6000, 60000)):
         items.append(("purens", gen_pure_ns(rng, 7_000_000 + i)))
         items.append(("pureres", gen_pure_res(rng, 7_000_000 + i)))
-    for gen in (gen_heal, gen_rapid, gen_pauseop, gen_nsterm, gen_restricted, gen_kinds, gen_operator):
+    for gen in (gen_heal, gen_establish, gen_rapid, gen_pauseop, gen_nsterm, gen_restricted, gen_kinds, gen_operator):
         for i in range(ctx.budget(100, 1000)):
             items.append(("operator", gen(rng, 7_000_000 + i)))
     open_sigs = [F3_SIG, F5_SIG, F6_SIG, F7_SIG, F8_SIG]
